@@ -279,7 +279,13 @@ def check(prop, tier, args):
         b = pools[main_fl].run_all(list(reversed(det_jobs)))
         b = list(reversed(b))
         mism = []
+        early_failures = []
         for x, y in zip(a, b):
+            if x.get('harness_error') or y.get('harness_error'):
+                # decided after the exploration (see Aggregate.add): secondary to a violation, a harness failure otherwise
+                he = x if x.get('harness_error') else y
+                early_failures.append(HarnessFailure('engine raised inside the run:\n%s\njob=%r' % (he['harness_error'], he.get('job'))))
+                continue
             dx = (x.get('result') or {}).get('digest'), x.get('abnormal')
             dy = (y.get('result') or {}).get('digest'), y.get('abnormal')
             if dx != dy:
@@ -298,6 +304,7 @@ def check(prop, tier, args):
         # ---- main exploration
         agg = Aggregate(eng)
         t_explore = time.monotonic()
+        agg.harness_failures.extend((t_explore, e) for e in early_failures[:5])
         deadline = t_explore + budget
         max_runs = int(os.environ.get('VERIF_MAX_RUNS') or args.max_runs or cfg.get('max_runs', 10 ** 9))
         grace_s = min(45.0, budget)
